@@ -87,6 +87,8 @@ def plant(n, kind, rnd, t):
         n.add_child(Node(cand[0], content="m"), index=rnd.randint(0, len(n.children)))
     elif kind == "invalid-content":
         n.content = "zqBad" if n.content is None else None
+    elif kind == "invalid-content-not-unicode":
+        n.content = "Gau\ud800ghan"                 # a str with a lone surrogate (a JSON document can carry one): an invalid node like any other
     elif kind == "invalid-attribute":
         n.add_attribute("zzBadAttr", "1")
     elif kind == "starve-required-child":
@@ -203,7 +205,7 @@ def run(rep, tier, seed):
     if tier == "quick":
         # all single plantings, plus a seeded sample of pairs
         rnd = random.Random(seed)
-        kinds = ["unknown-child", "unknown-leaf", "misplaced-known-child", "invalid-content", "invalid-attribute", "starve-required-child"]
+        kinds = ["unknown-child", "unknown-leaf", "misplaced-known-child", "invalid-content", "invalid-content-not-unicode", "invalid-attribute", "starve-required-child"]
         for _ in range(500):
             a = [rnd.randint(1, 6), rnd.choice(kinds)]
             b = [rnd.randint(1, 6), rnd.choice(kinds)]
